@@ -54,6 +54,49 @@ def _analyse_sanitiser(fn):
                     t = norm(cond)
                     if "'..'" in t or '".."' in t:
                         return "C", "", False, True
+    # (C') component resolution through a module helper: the list joined after the base is built by a helper in which every component
+    # appended to the result is known to differ from '..' at the append (a '..' pops instead): nothing can climb above the base
+    mod = getattr(fn, "_module", None)
+    if mod is not None:
+        from sa.facts import guard_facts, has_cmp
+        for j in joins:
+            for a in j.args[1:]:
+                v = a.value if isinstance(a, ast.Starred) else a
+                if isinstance(v, ast.Name):
+                    # the binding that reaches the join (straight-line function: the last assignment before it)
+                    from sa.astutil import straightline_env
+                    st_ = j
+                    while not isinstance(st_, ast.stmt):
+                        st_ = st_._parent
+                    env_ = straightline_env(fn.body[:fn.body.index(st_)]) if st_ in fn.body else {}
+                    v = env_.get(v.id, v)
+                if isinstance(v, ast.Call) and isinstance(v.func, ast.Name) and v.func.id in mod.funcs and "." not in v.func.id:
+                    h = mod.funcs[v.func.id]
+                    rets = [r for r in walk_body(h) if isinstance(r, ast.Return)]
+                    if len(rets) != 1 or not isinstance(rets[0].value, ast.Name):
+                        continue
+                    acc = rets[0].value.id
+                    inits = [n for n in walk_body(h) if isinstance(n, ast.Assign) and norm(n.targets[0]) == acc]
+                    if len(inits) != 1 or norm(inits[0].value) not in ("[]", "list()"):
+                        continue
+                    hcfg = CFG(h)
+                    facts = guard_facts(hcfg)
+                    ok = True
+                    n_app = 0
+                    for nd in hcfg.nodes:
+                        for c in node_calls(nd):
+                            if isinstance(c.func, ast.Attribute) and norm(c.func.value) == acc:
+                                if c.func.attr == "append" and len(c.args) == 1:
+                                    n_app += 1
+                                    e = norm(c.args[0])
+                                    if not (has_cmp(facts.get(nd.id, frozenset()), e, "!=", "'..'") or has_cmp(facts.get(nd.id, frozenset()), e, "!=", '".."')):
+                                        ok = False
+                                elif c.func.attr in ("extend", "insert", "__iadd__"):
+                                    ok = False
+                        if nd.kind == "stmt" and isinstance(nd.ast, ast.AugAssign) and norm(nd.ast.target) == acc:
+                            ok = False
+                    if ok and n_app:
+                        return "C", "", False, True
     # containment tests
     tests = []
     for n in walk_body(fn):
